@@ -316,4 +316,44 @@ def check_C10(pid, tier, seed, verdict):
                  "reason texts are not compared, only the verdict class"]
 
 
-CHECKS = {"C10": check_C10, "C14": check_C14, "C09": check_C09, "C11": check_C11, "C01": check_C01, "C02": check_C02, "C03": check_C03, "C04": check_C04, "C05": check_C05}
+# ------------------------------------------------------------------------------------- C12 / C13
+POOL_C13_WHY = ("a request was served on a closed session",)
+POOL_C13_DEV = ("SessionNeverReturnedToPool",)
+
+
+def _pool(pid, tier, seed, verdict):
+    thorough = tier == "thorough"
+    mcs = [mc_must_hold(pid, verdict, "Pool.tla", "MC_Pool_returning.cfg" if thorough else "MC_Pool_returning6.cfg"),
+           mc_must_fail(pid, "Pool.tla", "MC_Pool_pinned_c12.cfg"), mc_must_fail(pid, "Pool.tla", "MC_Pool_pinned_c13.cfg")]
+    run = V.run_harness(pid, "pool", seed, tier)
+    res = V.run_trace(pid, "Trace_Pool.tla", "Trace_Pool.cfg", run["trace"])
+    c13 = pid == "C13"
+    mine = dict(res)
+    mine["bad"] = [b for b in res["bad"] if (b["why"] in POOL_C13_WHY) == c13 or b["why"] == "a task panicked"]
+    mine["devs"] = [d for d in res["devs"] if (d["dev"] in POOL_C13_DEV) == c13]
+    verdict.add_trace_result("pool", mine, run)
+    cnt = res["cnt"]
+    V.log(f"[{pid}] trace: {cnt['scn']} histories, {cnt['st']} reaper/second states, {cnt['get']} gets, {cnt['cserved']} client "
+          f"requests, bad({pid})={len(mine['bad'])} devs({pid})={len(mine['devs'])}")
+    cov = _cov(mcs, cnt["scn"], cnt["nontrivial"],
+               "scenario = (API level, virtual time) one random history of 6-30 operations on a real SessionPool with real client "
+               "Sessions on in-memory transports: sessions with 0-2 open streams entering the map, gets, external deaths, peer "
+               "FINs, 1-3 s advances, settings CI 1-3 s, IT 1-5 s, MI 0-2, state sampled every virtual second; or (client level, "
+               "real time, reaper 200 ms / timeout 500 ms) sequential requests, two long-lived streams across reaper ticks and a "
+               "session count after a quiet period through the real Client and server; non-trivial = histories in which at least "
+               "one reaper state, get or served request was judged", V.sample_descrs(run["descr"]), True,
+               dict(trace_events=res["lines"], event_counts=cnt))
+    return cov, ["API-level histories are random (seeded), not TLC-generated: Pool.tla's Request/StreamDone/Die/Tick are replayed "
+                 "in the other direction only (recorded history validated by Trace_Pool)",
+                 "client-level timing is real time with scaled settings; safety clauses are time-free"]
+
+
+def check_C12(pid, tier, seed, verdict):
+    return _pool(pid, tier, seed, verdict)
+
+
+def check_C13(pid, tier, seed, verdict):
+    return _pool(pid, tier, seed, verdict)
+
+
+CHECKS = {"C12": check_C12, "C13": check_C13, "C10": check_C10, "C14": check_C14, "C09": check_C09, "C11": check_C11, "C01": check_C01, "C02": check_C02, "C03": check_C03, "C04": check_C04, "C05": check_C05}
